@@ -194,9 +194,10 @@ def replay(model, hist, fine=False, salt=1, eager=False):
     r.main_exc = ex.main_exc
     if ex.status == "ok" and not ctl.finished:
         r.status = "early-exit"
-    if ex.status == "deadlock" and ctl.finished:
+    if ex.status in ("deadlock", "horizon") and ctl.finished:
         # only the harness teardown (cancelling all actors) got stuck, e.g. behind a shielded
         # re-acquire of a lock held by an idle actor: everything of interest was observed
+        # ("horizon": the same, with a task group host that keeps re-cancelling itself)
         r.status = "ok"
     return r
 
